@@ -9,11 +9,11 @@ from pjplan.utils import TextTable, GREEN, YELLOW, GREY, RED
 
 
 def _validate_graph_isolation(project: WBS):
-    all_tasks = {task.id: task for task in project.tasks}
+    all_tasks = {id(task): task for task in project.tasks}
 
     for t in all_tasks.values():
         for pr in t.predecessors:
-            if pr.id not in all_tasks and (not pr.start or not pr.end):
+            if id(pr) not in all_tasks and (not pr.start or not pr.end):
                 raise RuntimeError(
                     "Task {t.id} ({t.name}) has predecessor {pr.id} ({pr.name}) w/o dates and outside wbs"
                 )
@@ -26,16 +26,16 @@ def _check_loops(project: WBS):
 
 
 def _check_loops_from_task(task: Task, visited_tasks: Set[int], validated: Set[int]):
-    if task.id in validated:
+    if id(task) in validated:
         return
 
-    if task.id in visited_tasks:
+    if id(task) in visited_tasks:
         raise RuntimeError(
             "Found circle",
-            [str(t) + "-->" for t in visited_tasks] + [str(task.id) + ":" + str(task.name)]
+            [str(task.id) + ":" + str(task.name)]
         )
 
-    visited_tasks.add(task.id)
+    visited_tasks.add(id(task))
 
     # Task waits for its predecessors, for predecessors of all its parents and (summary task) for its children
     for s in task.predecessors:
@@ -46,8 +46,8 @@ def _check_loops_from_task(task: Task, visited_tasks: Set[int], validated: Set[i
     for ch in task.children:
         _check_loops_from_task(ch, visited_tasks, validated)
 
-    visited_tasks.remove(task.id)
-    validated.add(task.id)
+    visited_tasks.remove(id(task))
+    validated.add(id(task))
 
 
 @dataclass(frozen=True)
@@ -249,7 +249,7 @@ class ForwardScheduler(IScheduler):
             resource_usage: _ResourceUsage,
             calculated: List[int]
     ):
-        if _task.id in calculated:
+        if id(_task) in calculated:
             return
 
         # Task waits for its own predecessors and for predecessors of all its parents,
@@ -314,7 +314,7 @@ class ForwardScheduler(IScheduler):
                 else:
                     _task.end = max([t.end for t in _task.children if t.end is not None])
 
-        calculated.append(_task.id)
+        calculated.append(id(_task))
 
     def calc(self, wbs: WBS) -> Schedule:
         _validate_graph_isolation(wbs)
@@ -428,7 +428,7 @@ class BackwardScheduler(IScheduler):
             resource_usage: _ResourceUsage,
             calculated: List[int]
     ):
-        if _task.id in calculated:
+        if id(_task) in calculated:
             return
 
         # Task must be finished before its own successors and successors of all its parents start,
@@ -487,7 +487,7 @@ class BackwardScheduler(IScheduler):
             else:
                 _task.start = min([t.start for t in _task.children if t.start is not None])
 
-        calculated.append(_task.id)
+        calculated.append(id(_task))
 
     @staticmethod
     def __prepare_tasks(project: WBS):
